@@ -177,8 +177,18 @@ def generate(repo):
     sync = find_function(tree, "Crop._sync_info_from_disk")
     sync_restores = any("self.shuffle" in ast.unparse(s) for s in sync.body)
     # the order inside sow_combos: prepare() (which saves the info) must come after self.shuffle is set
+    a = sow_combos.args
+    pos = a.posonlyargs + a.args
+    dmap = dict(zip([x.arg for x in pos][len(pos) - len(a.defaults):], a.defaults))
+    dmap.update({x.arg: d for x, d in zip(a.kwonlyargs, a.kw_defaults) if d is not None})
+    if "shuffle" not in dmap or not isinstance(dmap["shuffle"], ast.Constant) or dmap["shuffle"].value not in (None, False):
+        raise Refused(sow_combos, "default of sow_combos' shuffle parameter")
+    if "shuffle" in [x.arg for x in sow_cases.args.args + sow_cases.args.kwonlyargs]:
+        raise Refused(sow_cases, "sow_cases has a shuffle parameter")
+    sc_default = "None" if dmap["shuffle"].value is None else "(Some 0%Z)"
     out += ["Definition gen_wiring : wiring :=",
-            "  {| w_sow_combos_sets_self := " + ("true" if sets_self else "false") + ";",
+            "  {| w_sow_combos_default := " + sc_default + ";",
+            "     w_sow_combos_sets_self := " + ("true" if sets_self else "false") + ";",
             "     w_sow_combos_run := " + shuffle_src(find_call(sow_combos, "combo_runner_core")) + ";",
             "     w_sow_cases_sets_self := " + ("true" if cases_sets_self else "false") + ";",
             "     w_sow_cases_run := " + shuffle_src(find_call(sow_cases, "case_runner")) + ";",
